@@ -21,6 +21,8 @@ Tie    = (1) the environment compiled into the driver is compared, entry by
              ReadPropertyACK / WriteProperty / COV notification / RPM ack.
          (6) `mutate`: encode, ONE schema-valid modification in place, encode the
              same object again == a fresh object with the new value == the model.
+         (7) `decode-first`: fresh interpreter processes that only decode the model's
+             tag lists: enumeration leaves must be the NAMES of the model's tables.
 Oracle = on the implementation alone: decode(encode(v)) == v as canonical value
          trees built by walking the class tables (not dict_contents), nothing
          left over, re-encoding gives the identical octets, octets parse back
@@ -64,6 +66,19 @@ def GENERATED(ctx):
                        stdout=subprocess.PIPE, stderr=subprocess.STDOUT, text=True, env=env, timeout=300)
     if p.returncode != 0:
         raise RuntimeError("translator/c03.py: " + p.stdout.strip().split("\n")[-1])
+    # the decode-first stream reads enumeration NAMES from Gen/Enums.lean (C01's table):
+    # keep it in step with the tree under test through C01's own generator
+    try:
+        from . import c01
+        keep = ctx.extra.get("generated")
+        c01.GENERATED(ctx)
+        ctx.extra["generated_enums"] = ctx.extra.pop("generated", None)
+        if keep is not None:
+            ctx.extra["generated"] = keep
+    except core.Infra:
+        raise
+    except Exception as e:
+        ctx.notes.append("Gen/Enums.lean not regenerated (%r); using the committed table" % (e,))
 
 
 _TR = None
@@ -1436,6 +1451,261 @@ def shard_mutate(ctx, spec):
             ctx.count("mutate", (c["type"], c["sig"]))
 
 
+# ------------------------------------------------------------------ the `decode-first` stream: decoding as the FIRST use of a class
+#
+# Enumerations build their name table lazily, per class, when the first instance
+# is constructed.  Every other stream encodes (constructs) before it decodes, in
+# a process that has long warmed every class.  Here FRESH interpreter processes
+# (subprocess, not fork) do nothing but decode tag lists produced by the MODEL
+# driver (never by the library in that process) and report the raw attribute
+# values; the enumeration leaves must be the NAMES the model's tables give
+# (C01 `xlateNum` over Gen/Enums.lean), not raw numbers.  Afterwards the same
+# process re-encodes what it decoded (decode-first, then encode).
+
+def enum_key(cls):
+    return "%s.%s" % (cls.__module__.split(".")[-1], cls.__name__)
+
+
+def enum_refs(sch):
+    return [r for r in atomic_refs(sch) if r.app == 9]
+
+
+def has_enum_leaf(node):
+    refs = [f.ref for f in node.fields] + ([node.elem] if node.elem is not None else [])
+    return any(r.k == "prim" and r.app == 9 for r in refs)
+
+
+def enum_only(node, v, leaf):
+    """the value tree with every NON-enumeration leaf blanked; enumeration leaves
+    are replaced by leaf(ref, payload-or-python-value)"""
+    def of_ref(ref, x):
+        if x is None:
+            return None
+        if ref.k == "prim":
+            return {"e": leaf(ref, x)} if ref.app == 9 else {"p": "-"}
+        if ref.k == "anyAtomic":
+            return {"a": "-"}
+        return enum_only(ref.node, x, leaf)
+    if node.k == "seq":
+        return {"seq": [of_ref(f.ref, x) for f, x in zip(node.fields, v["seq"])]}
+    if node.k == "choice":
+        i, x = v["ch"]
+        return {"ch": [i, of_ref(node.fields[i].ref, x)]}
+    if node.k == "list":
+        return {"list": [of_ref(node.elem, x) for x in v["list"]]}
+    if node.k == "any":
+        return {"tags": len(v["tags"])}
+    if node.k == "nameValue":
+        x = v["seq"][1]
+        return {"seq": [{"p": "-"}, None if x is None else ({"a": "-"} if "a" in x else enum_only(node.dt.node, x, leaf))]}
+    raise core.Infra("enum_only: " + node.k)
+
+
+def raw_enum_tree(node, obj):
+    """the same shape read off a LIVE decoded object, WITHOUT constructing any
+    instance of an enumeration class (that would expand its table)"""
+    from bacpypes import constructeddata as cd
+
+    def of_ref(ref, x):
+        if x is None:
+            return None
+        if ref.k == "prim":
+            return {"e": x if isinstance(x, (str, int)) and not isinstance(x, bool) else repr(x)} \
+                if ref.app == 9 else {"p": "-"}
+        if ref.k == "anyAtomic":
+            return {"a": "-"}
+        return raw_enum_tree(ref.node, x)
+    if node.k == "seq":
+        return {"seq": [of_ref(f.ref, getattr(obj, f.name, None)) for f in node.fields]}
+    if node.k == "choice":
+        for i, f in enumerate(node.fields):
+            x = getattr(obj, f.name, None)
+            if x is not None:
+                return {"ch": [i, of_ref(f.ref, x)]}
+        return {"ch": None}
+    if node.k == "list":
+        items = obj if isinstance(obj, list) else obj.value[1:] if isinstance(obj, cd.Array) else obj.value
+        return {"list": [of_ref(node.elem, x) for x in items]}
+    if node.k == "any":
+        return {"tags": len(obj.tagList.tagList)}
+    if node.k == "nameValue":
+        from bacpypes.primitivedata import Atomic
+        x = obj.value
+        return {"seq": [{"p": "-"}, None if x is None else ({"a": "-"} if isinstance(x, Atomic)
+                                                           else raw_enum_tree(node.dt.node, x))]}
+    raise core.Infra("raw_enum_tree: " + node.k)
+
+
+def decode_first_worker():
+    """runs in a FRESH interpreter: stdin = {"cases": [...]}, stdout = {"results": [...], "warm_at_import": [...]}.
+    Phase 1 only decodes; phase 2 (after every decode is done) re-encodes."""
+    req = json.load(sys.stdin)
+    core.bind_repo()
+    from bacpypes.primitivedata import Tag, TagList
+    sch = schema()                      # pure introspection of classes, constructs no value
+    erefs = {enum_key(r.cls): r for r in enum_refs(sch)}
+    warm = sorted(k for k, r in erefs.items() if "_xlate_table" in r.cls.__dict__)
+    by_name = {n.name: n for n in sch.nodes}
+    results, keep = [], []
+    for c in req["cases"]:
+        try:
+            if c["kind"] == "direct":
+                r = erefs[c["cls"]]
+                data = bytes.fromhex(c["data"])
+                val = r.cls(Tag(0, 9, len(data), data)).value
+                results.append({"r": "ok", "e": val if isinstance(val, (str, int)) else repr(val)})
+                keep.append(None)
+            else:
+                node = by_name[c["type"]]
+                obj = node.cls()
+                tags = [mktag(t) for t in c["tags"]]
+                if node.apci:
+                    from bacpypes.apdu import APDU
+                    from bacpypes.pdu import PDUData
+                    data = PDUData()
+                    TagList(tags).encode(data)
+                    apdu = APDU()
+                    apdu.pduData = bytearray(data.pduData)
+                    obj.decode(apdu)
+                else:
+                    obj.decode(TagList(tags))
+                results.append({"r": "ok", "ev": raw_enum_tree(node, obj)})
+                keep.append((node, obj))
+        except Exception as e:
+            results.append({"r": "err", "k": core.exc_kind(e), "msg": str(e)[:200]})
+            keep.append(None)
+    for res, k in zip(results, keep):       # decode-first, THEN encode
+        if k is not None and res.get("r") == "ok":
+            try:
+                res["re"] = impl_encode(k[0], k[1])["hex"]
+            except Exception as e:
+                res["re"] = "err:" + type(e).__name__
+    json.dump({"results": results, "warm_at_import": warm}, sys.stdout)
+
+
+def fresh_process(cases):
+    env = dict(os.environ, VERIF_REPO=core.REPO, PYTHONDONTWRITEBYTECODE="1", TZ="UTC")
+    env.pop("PYTHONPATH", None)
+    code = ("import sys; sys.path.insert(0, %r); from harness import c03; c03.decode_first_worker()" % core.VERIF)
+    p = subprocess.run([sys.executable, "-c", code], input=json.dumps({"cases": cases}), stdout=subprocess.PIPE,
+                       stderr=subprocess.PIPE, text=True, env=env, cwd=core.VERIF, timeout=600)
+    if p.returncode != 0:
+        raise core.Infra("decode-first worker failed: " + p.stderr[-600:])
+    return json.loads(p.stdout)
+
+
+def decode_first_cases(ctx, drv, rng, per_node):
+    """(cases, expected): tag lists come from the MODEL's encoder, names from the model's tables"""
+    sch = schema()
+    g = Gen(rng, maxdepth=2)
+    cases, expected, queries = [], [], []
+    # directly via every enumeration class: defined numbers (lowest, highest, one more) and an undefined one
+    for r in enum_refs(sch):
+        nums = set()
+        for c in r.cls.__mro__:
+            nums.update(v for v in getattr(c, "enumerations", {}).values() if isinstance(v, int))
+        nums = sorted(nums)
+        picks = sorted(set(([nums[0], nums[-1], rng.choice(nums)] if nums else []) + [4000000]))
+        for n in picks:
+            cases.append({"kind": "direct", "cls": enum_key(r.cls), "n": n, "data": min_unsigned(n).hex()})
+            queries.append((enum_key(r.cls), n))
+            expected.append(("direct", len(queries) - 1))
+    # as elements of structures
+    enc_reqs, enc_idx = [], []
+    for node in sch.nodes:
+        if node.k in ("seq", "choice", "list") and has_enum_leaf(node):
+            plans = [p for p, _s in plans_for(node, rng, True)][:per_node] or [{}]
+            for plan in plans[:per_node]:
+                obj = g.node_value(node, 0, plan)
+                v = tree(node, obj)
+                enc_reqs.append({"op": "enc", "t": node.idx, "v": v})
+                enc_idx.append((node, v))
+    model_enc = drv.ask(enc_reqs)
+    for (node, v), m in zip(enc_idx, model_enc):
+        if m.get("r") != "ok":
+            continue
+        slot = {}
+
+        def leaf(ref, x, slot=slot):
+            n = int.from_bytes(bytes.fromhex(x["p"][1]), "big")
+            queries.append((enum_key(ref.cls), n))
+            return ("q", len(queries) - 1, n)
+        ev = enum_only(node, v, leaf)
+        cases.append({"kind": "struct", "type": node.name, "tags": m["tags"], "hex": m["hex"]})
+        expected.append(("struct", ev, m["hex"]))
+    names = drv.ask([{"op": "enumnames", "q": [[k, n] for k, n in queries]}])[0]["names"]
+    # a class without any `enumerations` (plain Enumerated) has no table in Gen/Enums.lean: numbers stay numbers
+    bare = set(enum_key(r.cls) for r in enum_refs(sch)
+               if not any(getattr(c, "enumerations", {}) for c in r.cls.__mro__))
+    names = [None if (nm == "?unknown-class" and k in bare) else nm for (k, _n), nm in zip(queries, names)]
+
+    def resolve(x):
+        if isinstance(x, tuple) and x and x[0] == "q":
+            nm = names[x[1]]
+            return x[2] if nm is None else nm
+        if isinstance(x, dict):
+            return {k: resolve(y) for k, y in x.items()}
+        if isinstance(x, list):
+            return [resolve(y) for y in x]
+        return x
+    out = []
+    for e in expected:
+        if e[0] == "direct":
+            nm = names[e[1]]
+            out.append({"r": "ok", "e": queries[e[1]][1] if nm is None else nm})
+        else:
+            out.append({"r": "ok", "ev": resolve(e[1]), "re": e[2]})
+    unknown = sorted(set(k for (k, _n), nm in zip(queries, names) if nm == "?unknown-class"))
+    if unknown:
+        raise core.Infra("Gen/Enums.lean does not know %r (run ./check C01 to regenerate)" % unknown[:5])
+    return cases, out
+
+
+def run_decode_first(ctx, drv, processes, per_node):
+    if not drv:
+        return
+    warm_seen = None
+    for k in range(processes):
+        rng = ctx.sub_rng("c03-decode-first/%d" % k)
+        cases, want = decode_first_cases(ctx, drv, rng, per_node)
+        order = list(range(len(cases)))
+        if k % 2 == 1:
+            order.sort(key=lambda i: 0 if cases[i]["kind"] == "struct" else 1)   # structures first
+        if k >= 2:
+            rng.shuffle(order)
+        cases = [cases[i] for i in order]
+        want = [want[i] for i in order]
+        got = fresh_process(cases)
+        warm_seen = got["warm_at_import"]
+        res = got["results"]
+        for c, a, b in zip(cases, res, want):
+            a2 = {x: y for x, y in a.items() if x != "msg"}
+            if core.canon(a2) != core.canon(b):
+                label = c.get("cls") or c.get("type")
+                ctx.fail("decode-first", dict(c, decode_first=label, got=a, want=b),
+                         "decoding as the first use of the class in a fresh process: %s gives %s, the model (names "
+                         "from the enumeration tables) gives %s" % (
+                             label, json.dumps(a.get("e", a.get("ev", a)))[:160],
+                             json.dumps(b.get("e", b.get("ev")))[:160]), type=label)
+        ctx.compare_stream("decode-first", [dict(c, op="decode-first") for c in cases],
+                           [{x: y for x, y in a.items() if x != "msg"} for a in res], want,
+                           sig=lambda c, m: (c["kind"], c.get("cls") or c.get("type")))
+    ctx.extra["decode_first"] = {"fresh_processes": processes,
+                                 "enumeration_classes": len(enum_refs(schema())),
+                                 "classes_already_warm_after_import": warm_seen}
+
+
+def replay_decode_first(ctx, drv, case):
+    c = {k: v for k, v in case.items() if k not in ("got", "want", "decode_first")}
+    got = fresh_process([c])["results"][0]
+    want = case.get("want")
+    ctx.count("decode-first", (c["kind"], c.get("cls") or c.get("type")))
+    a2 = {x: y for x, y in got.items() if x != "msg"}
+    if want is not None and core.canon(a2) != core.canon(want):
+        ctx.fail("decode-first", dict(case, got=got), "decode-first replay: got %s, want %s" % (
+            json.dumps(a2)[:200], json.dumps(want)[:200]), type=case.get("decode_first"))
+
+
 # ------------------------------------------------------------------ synthetic schemas
 
 def synthetic_classes():
@@ -1677,6 +1947,8 @@ def replay_case(ctx, drv, case, label):
         return replay_any(ctx, drv, case)
     if "mutate" in case:
         return replay_mutate(ctx, drv, case)
+    if "decode_first" in case:
+        return replay_decode_first(ctx, drv, case)
     node = None
     for n in sch.nodes:
         if n.name == case.get("type"):
@@ -1724,6 +1996,7 @@ def run(ctx):
     run_annex_f(ctx, drv)
     census_nonfamily(ctx, 6 if ctx.quick else 60)
     run_synthetic(ctx, drv)
+    run_decode_first(ctx, drv, 2 if ctx.quick else 8, 2 if ctx.quick else 8)
     core.run_shards(ctx, "harness.c03", "shard_mutate",
                     [(k, 16, 2 if ctx.quick else 40) for k in range(16)])
     typed, skipped = typed_any_targets(sch)
